@@ -326,3 +326,18 @@ Proof.
     exists s, b. exact H.
   - intros (s & b & H). exists (s, i). split; [reflexivity|]. apply spec_table_In. exists i, b. auto.
 Qed.
+
+(* Core.get_uri_schemes(): exactly the schemes of the backends that could be queried at
+   start-up, each once *)
+Theorem core_schemes_exact P mx log l :
+  run P mx OCoreSchemes = (log, Ok (VSchemes l)) ->
+  log = [] /\ NoDup l /\
+  forall s, In s l <-> exists i b, nth_error P i = Some b /\ b_info_ok b = true /\ In s (b_schemes b).
+Proof.
+  unfold run. destruct (mk_backends P) as [T|e|] eqn:E; try discriminate.
+  cbn. intros [= <- <-]. split; [reflexivity|]. split; [apply mk_backends_ok_iff; eauto|].
+  intros s. unfold live_schemes. rewrite in_flat_map. split.
+  - intros (b & Hb & Hs). apply In_nth_error in Hb. destruct Hb as [i Hi].
+    destruct (b_info_ok b) eqn:Eo; [|contradiction]. eauto.
+  - intros (i & b & Hi & Ho & Hs). exists b. split; [eapply nth_error_In; eassumption|now rewrite Ho].
+Qed.
